@@ -1,5 +1,5 @@
 SPECIFICATION Spec
 INVARIANT ClassesDecide ClassesDecideUpper MechanismIsRule OnlyPoints AcceptCarries AcceptRoundTrips SkIsPkWithoutPoint
-INVARIANT BytesRule ReprIndependent InlineFits BinRule StrRule SigRule SigComplete EncodersAccepted SerdeTotal
+INVARIANT BytesRule ReprIndependent InlineFits BinRule StrRule SigRule SigComplete EncodersAccepted SerdeTotal LayoutRule
 INVARIANT Emit
 CHECK_DEADLOCK FALSE
